@@ -1336,6 +1336,18 @@ class RTCSctpTransport(AsyncIOEventEmitter):
         """
         self.__log_debug("<< %s", param)
 
+        if isinstance(
+            param, (StreamResetOutgoingParam, StreamAddOutgoingParam)
+        ) and uint32_gte(self._reconfig_response_seq, param.request_sequence):
+            # a request we have already carried out (duplicated or sent again),
+            # acknowledge it once more but do not perform it a second time
+            await self._send_reconfig_param(
+                StreamResetResponseParam(
+                    response_sequence=param.request_sequence, result=1
+                )
+            )
+            return
+
         if isinstance(param, StreamResetOutgoingParam):
             # mark closed inbound streams
             for stream_id in param.streams:
